@@ -331,8 +331,8 @@ func parseF(s string) (float64, bool) {
 	return f, err == nil
 }
 
-// c05E2E: real dmap against real servers over SSH, one file per server
-// (the known finding c06.cmd-race needs several files per server).
+// c05E2E: real dmap against real servers over SSH, one file per server or
+// several files per server behind one glob.
 func c05E2E(r *vlib.Run) {
 	nFleets := r.N(2, 12)
 	perFleet := r.N(8, 60)
@@ -373,17 +373,41 @@ func c05E2E(r *vlib.Run) {
 				s := frng.Intn(nSrv)
 				per[s] = append(per[s], l)
 			}
+			// one file per server, or the server's lines spread over up to
+			// three files requested with one glob (one read command: the
+			// recorded command race c06.cmd-race cannot occur)
 			rel := fmt.Sprintf("data/in%d.log", ci)
+			nParts := 1
+			// (csv: the aggregator takes the first line it sees as the header,
+			// so only one file per server carries one)
+			if frng.Intn(2) == 0 && format != "csv" {
+				nParts = 2 + frng.Intn(2)
+				rel = fmt.Sprintf("data/in%d/p*.log", ci)
+				r.Count("e2e_runs_with_several_files_per_server", 1)
+			}
+			var written [][2]string
 			for s := 0; s < nSrv; s++ {
-				body := per[s]
-				if format == "csv" {
-					body = append([]string{strings.Join(t.CSVHeader, ",")}, body...)
+				parts := make([][]string, nParts)
+				for _, l := range per[s] {
+					k := frng.Intn(nParts)
+					parts[k] = append(parts[k], l)
 				}
-				content := strings.Join(body, "\n")
-				if len(body) > 0 && frng.Intn(8) != 0 {
-					content += "\n"
+				for k := 0; k < nParts; k++ {
+					body := parts[k]
+					if format == "csv" {
+						body = append([]string{strings.Join(t.CSVHeader, ",")}, body...)
+					}
+					content := strings.Join(body, "\n")
+					if len(body) > 0 && frng.Intn(8) != 0 {
+						content += "\n"
+					}
+					name := rel
+					if nParts > 1 {
+						name = fmt.Sprintf("data/in%d/p%d.log", ci, k)
+					}
+					fl.WriteFile(s, name, []byte(content))
+					written = append(written, [2]string{fl.Servers[s].Spec.Dir, name})
 				}
-				fl.WriteFile(s, rel, []byte(content))
 				for _, l := range tableFilter(t.Format, q.Table, per[s]) {
 					lines = append(lines, mq.Line{Text: l, Server: fl.Servers[s].Spec.Name})
 				}
@@ -421,8 +445,8 @@ func c05E2E(r *vlib.Run) {
 			}
 			os.Remove(out)
 			os.Remove(out + ".query")
-			for s := 0; s < nSrv; s++ {
-				os.Remove(filepath.Join(fl.Servers[s].Spec.Dir, rel))
+			for _, w := range written {
+				os.Remove(filepath.Join(w[0], w[1]))
 			}
 		}
 		if !fl.AllAlive() {
